@@ -1,7 +1,7 @@
 """Per-property plan: which engines run besides the contract/lemma obligations tagged with the property."""
 
 PLAN = {
-    'C01': dict(level='proof', engines=['sumlib', 'segnative', 'tasknative', 'beatstruct', 'libconf']),
+    'C01': dict(level='proof', engines=['sumlib', 'segnative', 'tasknative', 'matchnative', 'beatstruct', 'libconf']),
     'C02': dict(level='proof', engines=['tasknative', 'chordevalnative']),
     'C03': dict(level='proof', engines=['bundles', 'multipitchnative']),
     'C04': dict(level='proof', engines=['keynative', 'matchnative', 'tasknative', 'multipitchnative', 'libconf']),
